@@ -41,9 +41,19 @@ UNIVERSES = {
                  dict(BASE, MaxArr=3, HVals='H3', VVals='V2')],
 }
 NRANDOM = {'quick': 8000, 'thorough': 60000}
+# history leg (constants of TimeStepHistMC.tla)
+HBASE = dict(NArr=2, NAsks=3, MaxOps=1, MaxReal=2, HVals='H2', AVals='A1',
+             CVals='C2', NDamps='{0, 2}', Cfl='CflHalf', Dt='Dt1000')
+HUNIVERSES = {
+    'quick': [dict(HBASE)],
+    'thorough': [dict(HBASE, HVals='H3', NDamps='{0, 1, 2, 3}')],
+}
+NRANDOMH = {'quick': 3000, 'thorough': 30000}
+HDEFECTS = ('H-cache-nonempty', 'H-double-damp')
 DEFECTS = ('C19-hmin-starts-at-1', 'C19-empty-array-hmin',
            'C19-dt-adapt-ghost-only', 'C19-dt-adapt-no-particles')
 INPUT_KEYS = ('cfl', 'dt', 'fixed_h', 'late', 'arrays')
+HINPUT_KEYS = ('cfl', 'dt', 'fixed_h', 'ndamp', 'init')
 
 
 def write_cfg(path, b, invariants, emit, defects=()):
@@ -59,10 +69,23 @@ def write_cfg(path, b, invariants, emit, defects=()):
         fp.write('CHECK_DEADLOCK FALSE\n')
 
 
-def run_tlc(cfg, workers):
-    """TLC on TimeStepMC; one retry when the JVM died without a verdict."""
+def write_hcfg(path, b, emit, defects=()):
+    with open(path, 'w') as fp:
+        fp.write('SPECIFICATION Spec\nCONSTANTS\n')
+        for k, v in b.items():
+            named = isinstance(v, str) and not v.startswith('{')
+            fp.write('  %s %s %s\n' % (k, '<-' if named else '=', v))
+        fp.write('  HDf = {%s}\n' % ', '.join('"%s"' % d for d in defects))
+        fp.write('  Emit = %s\n' % ('TRUE' if emit else 'FALSE'))
+        fp.write('INVARIANT Functional\nINVARIANT Documented\n'
+                 'CHECK_DEADLOCK FALSE\n')
+
+
+def run_tlc(cfg, workers, module='TimeStepMC'):
+    """TLC on a design model; one retry when the JVM died without a
+    verdict."""
     for attempt in (0, 1):
-        r = tlc.run('TimeStepMC', cfg, workers=workers, timeout=3000)
+        r = tlc.run(module, cfg, workers=workers, timeout=3000)
         if not (r.get('error') or r.get('timeout')):
             return r
     raise MachineryError('TLC design run failed:\n' + r['out'][-3000:])
@@ -116,6 +139,49 @@ def design(chk):
                 info['sensitivity'][fid] = (st[-1]['text'][:1500]
                                             if st else '')
     return cases, info
+
+
+def design_hist(chk):
+    """Design runs of the history leg (TimeStepHistMC.tla).  Returns the
+    histories printed by TLC and info for the evidence."""
+    sc = chk.scratch
+    hists = []
+    info = dict(states=0, transitions=0, universes=[], sensitivity={})
+    for ui, b in enumerate(HUNIVERSES[chk.tier]):
+        sens = []
+        for d in HDEFECTS:
+            c = os.path.join(sc, 'hsens-%d-%s.cfg' % (ui, d))
+            write_hcfg(c, b, False, defects=(d,))
+            sens.append((d, c))
+        c1 = os.path.join(sc, 'hfull-%d.cfg' % ui)
+        write_hcfg(c1, b, True)
+        with ThreadPoolExecutor(max_workers=3) as ex:
+            fs = [(d, ex.submit(run_tlc, c, 1, 'TimeStepHistMC'))
+                  for d, c in sens]
+            full = run_tlc(c1, 4, 'TimeStepHistMC')
+            found = [(d, f.result()) for d, f in fs]
+        if not full['ok']:
+            raise MachineryError(
+                'history design model: invariant %s violated\n%s' % (
+                    full['violation'], full['out'][-2500:]))
+        got = tlc.parse_prints(full['out'], 'HIST')
+        for i, h in enumerate(got):
+            h['id'] = 'hu%d-%d' % (ui, i)
+        hists += got
+        info['states'] += full['distinct']
+        info['transitions'] += full['generated']
+        info['universes'].append(dict(constants=b, histories=len(got),
+                                      states=full['distinct']))
+        for d, r in found:
+            if r['violation'] != 'Documented':
+                raise MachineryError(
+                    'history universe %d is not sensitive to %s\n%s' % (
+                        ui, d, r['out'][-1500:]))
+            if d not in info['sensitivity']:
+                st = tlc.counterexample(r['out'])
+                info['sensitivity'][d] = (st[-1]['text'][:1500]
+                                          if st else '')
+    return hists, info
 
 
 # -- random cases (well formed by construction, see TimeStep.tla) ------------
@@ -182,6 +248,66 @@ def random_case(rng, i):
                 fixed_h=fixed_h,
                 late=(not fixed_h) and rng.random() < 0.5,
                 arrays=arrays)
+
+
+def random_history(rng, i):
+    """A random history on 1-3 arrays without ghosts: 3-4 asks, 1-3 changes
+    between two asks (inlet-like additions, draining, removals, new h)."""
+    base = random_case(rng, i)
+    squares = any(a['has']['force'] for a in base['arrays'])
+
+    def hval():
+        if squares:
+            return fr(Fraction(rng.randint(1, 4), rng.randint(1, 4)) ** 2)
+        return fr(Fraction(rng.randint(1, 6), rng.randint(1, 6)))
+
+    def particle(has):
+        p = dict(h=hval())
+        for k in ('adapt', 'cfl', 'force', 'visc'):
+            if not has[k] or rng.random() < 0.15:
+                v = Fraction(0)
+            elif k == 'adapt':
+                v = Fraction(rng.randint(1, 8), rng.randint(1, 16))
+            elif k == 'force':
+                v = Fraction(rng.randint(1, 3), rng.randint(1, 3)) ** 4
+            else:
+                v = Fraction(rng.randint(1, 8), rng.randint(1, 4))
+            p[k] = fr(v)
+        return p
+
+    cur = []
+    for a in base['arrays']:
+        n = rng.choice([0, 0, 1, 2])
+        cur.append(dict(has=a['has'], ghost=[],
+                        real=[particle(a['has']) for _ in range(n)]))
+    init = json.loads(json.dumps(cur))
+    asks = [dict(ops=[], arrays=json.loads(json.dumps(cur)), count=0)]
+    for k in range(1, rng.choice([3, 3, 4])):
+        ops = []
+        for _ in range(rng.choice([1, 1, 2, 3])):
+            a = rng.randrange(len(cur))
+            arr = cur[a]
+            kind = rng.choice(['add', 'add', 'removeall', 'removelast',
+                               'seth'])
+            o = dict(op=kind, a=a + 1, i=0, h=[0, 1], parts=[])
+            if kind == 'add' or not arr['real']:
+                o['op'] = 'add'
+                o['parts'] = [particle(arr['has'])
+                              for _ in range(rng.choice([1, 1, 2]))]
+                arr['real'] = arr['real'] + json.loads(json.dumps(o['parts']))
+            elif kind == 'removeall':
+                arr['real'] = []
+            elif kind == 'removelast':
+                arr['real'] = arr['real'][:-1]
+            else:
+                o['i'] = rng.randint(1, len(arr['real']))
+                o['h'] = hval()
+                arr['real'][o['i'] - 1]['h'] = o['h']
+            ops.append(o)
+        asks.append(dict(ops=ops, arrays=json.loads(json.dumps(cur)),
+                         count=k))
+    return dict(id='rh%d' % i, cfl=base['cfl'], dt=base['dt'], fixed_h=False,
+                ndamp=rng.choice([0, 1, 2, 3]), init=init, asks=asks)
 
 
 # -- real code ---------------------------------------------------------------
@@ -261,7 +387,20 @@ def validate(chk, traces, tag, per_batch=6000):
 
 
 def inputs_of(t):
+    if 'asks' in t:
+        d = {k: t[k] for k in HINPUT_KEYS}
+        d['asks'] = [{k: q[k] for k in ('ops', 'arrays', 'count')}
+                     for q in t['asks']]
+        return d
     return {k: t[k] for k in INPUT_KEYS}
+
+
+def results_of(t):
+    if 'asks' in t:
+        return json.dumps([[q['res'], q['kept'], q['step']]
+                           for q in t['asks']])
+    return 'compute_time_step -> %s, _compute_timestep -> %s' % (
+        json.dumps(t['res']), json.dumps(t['sres']))
 
 
 def judge(chk, traces_by_id, verdicts):
@@ -275,15 +414,14 @@ def judge(chk, traces_by_id, verdicts):
         if not v['failed']:
             if not r['mech']:
                 ndrift += 1
-                chk.note_drift('TimeStep', 'case %s: real result %s / %s '
+                chk.note_drift('TimeStep', 'case %s: real result %s '
                                'differs from the mechanism model' % (
-                                   v['id'], json.dumps(tr['res']),
-                                   json.dumps(tr['sres'])))
+                                   v['id'], results_of(tr)))
             continue
-        what = 'clauses %s fail: compute_time_step -> %s, ' \
-               '_compute_timestep -> %s %s' % (
-                   sorted(v['failed']), json.dumps(tr['res']),
-                   json.dumps(tr['sres']), tr.get('msg', ''))
+        what = 'clauses %s fail%s: %s %s' % (
+            sorted(v['failed']),
+            ' at ask %d of the history' % v['step'] if 'step' in v else '',
+            results_of(tr), tr.get('msg', ''))
         if v['explained'] and v['known'] and \
                 all(chk.known(k) for k in v['known']):
             for k in v['known']:
@@ -297,6 +435,8 @@ def judge(chk, traces_by_id, verdicts):
 def nontrivial(t):
     """Some criterion applies: a positive value of an optional property on a
     real particle (the answer is not trivially None)."""
+    if 'asks' in t:
+        return any(nontrivial(q) for q in t['asks'])
     for a in t['arrays']:
         for p in a['real']:
             for k in ('adapt', 'cfl', 'force', 'visc'):
